@@ -123,6 +123,19 @@ pub fn constructs(thorough: bool) -> Vec<Construct> {
     v.push(expr_c("repeat", 2, |o| format!("[{}; {}]", o[0], o[1])));
     v.push(expr_c("tuple2", 2, |o| format!("({}, {})", o[0], o[1])));
     v.push(expr_c("struct2", 2, |o| format!("struct{{ a := {}, b := {} }}", o[0], o[1])));
+    // selection written directly on an aggregate literal: the siblings of the selected component
+    // are still evaluated (their effects and failures happen), whatever is known about it
+    for k in 0..2 {
+        v.push(expr_c(&format!("tuple2-select.{k}"), 2, move |o| format!("({}, {}).{k}", o[0], o[1])));
+        v.push(expr_c(&format!("array2-select[{k}]"), 2, move |o| format!("[{}, {}][{k}]", o[0], o[1])));
+    }
+    for f in ["a", "b"] {
+        v.push(expr_c(&format!("struct2-select.{f}"), 2, move |o| format!("struct{{ a := {}, b := {} }}.{f}", o[0], o[1])));
+    }
+    v.push(expr_c("array2-select[-1]", 2, |o| format!("[{}, {}][-1]", o[0], o[1])));
+    v.push(expr_c("array2-slice[1:]", 2, |o| format!("[{}, {}][1:]", o[0], o[1])));
+    v.push(expr_c("array2-len", 2, |o| format!("std.len([{}, {}])", o[0], o[1])));
+    v.push(expr_c("tuple2-in-tuple-select", 2, |o| format!("(({}, {}), 0).0.1", o[0], o[1])));
     v.push(expr_c("mut", 1, |o| format!("mut {}", o[0])));
     v.push(stmt_c("if-else", 3, |o| format!("return if {} {} else {};", o[0], o[1], o[2])));
     v.push(stmt_c("if", 2, |o| format!("return if {} {{ {} }};", o[0], o[1])));
@@ -385,6 +398,41 @@ pub fn constructs(thorough: bool) -> Vec<Construct> {
             v.push(stmt_c(&format!("shadow-then-read:{name}:{ts}"), 2, move |o| text.replace("TYPE", &ts2).replace("OTHER", &o[1]).replace("FIRST", &o[0])));
         }
     }
+    // the same binders (and every kind of block holding nothing but a binder), after which the
+    // operand is *used* as what its static type says it is
+    for t in palette::position_types() {
+        let ts = t.print();
+        let usage: &str = match ts.as_str() {
+            "int" => "FIRST + 1",
+            "float" => "FIRST / 2.0",
+            "string" => "FIRST + \"s\"",
+            "[int]" => "FIRST + [1]",
+            "(int, int)" => "FIRST.0 + FIRST.1",
+            "mut int" => "*FIRST + 1",
+            "()->int" => "FIRST() + 1",
+            "struct{a: int}" => "FIRST.a + 1",
+            _ => continue,
+        };
+        for (name, text) in [
+            ("match-arm", "m := match OTHER { a: any => 0, }; return (m, USAGE);"),
+            ("if-set", "if a: any = OTHER { }; return USAGE;"),
+            ("while-set", "while a: any = OTHER { break }; return USAGE;"),
+            ("for", "for a in [OTHER]~ { }; return USAGE;"),
+            ("destructuring-in-block", "{ (a, zz) := (OTHER, 1) }; return USAGE;"),
+            ("destructuring-in-branch", "if true { (a, zz) := (OTHER, 1) }; return USAGE;"),
+            ("destructuring-in-else", "if false { } else { (zz, a) := (1, OTHER) }; return USAGE;"),
+            ("destructuring-in-for-body", "for q in [1]~ { (a, zz) := (OTHER, 1) }; return USAGE;"),
+            ("destructuring-in-while-body", "n := mut 0; while *n < 1 { n += 1; (a, zz) := (OTHER, 1) }; return USAGE;"),
+            ("destructuring-in-match-arm", "match 1 { 1 => { (a, zz) := (OTHER, 1) }, => { }, }; return USAGE;"),
+            ("destructuring-in-called-function", "g := () -> () { (a, zz) := (OTHER, 1) }; g(); return USAGE;"),
+            ("declaration-in-block", "{ a := OTHER }; return USAGE;"),
+            ("function-declaration-in-block", "{ a := () -> any { return OTHER } }; return USAGE;"),
+            ("callback-parameter", "m := [OTHER]~ @ (a: any) -> any { return a } $]; return (m, USAGE);"),
+        ] {
+            let text = text.replace("USAGE", usage);
+            v.push(stmt_c(&format!("shadow-then-use:{name}:{ts}"), 2, move |o| text.replace("OTHER", &o[1]).replace("FIRST", &o[0])));
+        }
+    }
     v
 }
 
@@ -392,7 +440,7 @@ pub fn constructs(thorough: bool) -> Vec<Construct> {
 /// every construct (<= 2 operands)
 pub fn nested_constructs() -> Vec<Construct> {
     let base = constructs(false);
-    let inners: Vec<&Construct> = base.iter().filter(|c| c.expr.is_some() && c.slots <= 2 && !c.name.starts_with("mut:") && !c.name.starts_with("typefilter:")).collect();
+    let inners: Vec<&Construct> = base.iter().filter(|c| c.expr.is_some() && c.slots <= 2 && !c.name.starts_with("mut:") && !c.name.starts_with("typefilter:") && !c.name.contains("-select") && !c.name.starts_with("array2-")).collect();
     let outers: Vec<&Construct> = base
         .iter()
         .filter(|c| c.slots <= 2 && !c.name.contains("shadow") && !c.name.starts_with("match-2types") && !c.name.starts_with("closure"))
